@@ -176,7 +176,7 @@ def make_instance(rng, template, tmpdir, tag):
         refs.update(dfa1=R1, dfa2=R2)
     elif template in ('nfa-for-language', 'nfa-to-dfa'):
         R = ref_nfa(rng)
-        eps = rng.choice(['_', 'ε'])
+        eps = rng.choice(['_', 'ε', 'e', 'E'])
         text, _, _ = txt.render_fa(R, 'nfa', eps, layout(rng), rng)
         s['inputfile'] = write('n.nfa', text)
         if template == 'nfa-for-language':
@@ -187,7 +187,7 @@ def make_instance(rng, template, tmpdir, tag):
         refs.update(nfa=R, eps=eps)
     elif template == 'pda-for-language':
         RP = tame_pda(rng)
-        eps = rng.choice(['_', 'ε'])
+        eps = rng.choice(['_', 'ε', 'e'])
         text, _, _ = txt.render_pda(RP, eps, layout(rng), rng)
         s['inputfile'] = write('p.pda', text)
         s['length'] = str(rng.choice([3, 4]))
